@@ -17,11 +17,11 @@ PROPERTY_ID = 'C19'
 
 RULE = ('Hypothesis draws the state dimension d (1..3), the number of diffusion columns d2 (1..3, non-square diffusion is a '
         'tracked class), 2..4 modes with 1..3 twice-differentiable basis functions each (constant, identity, monomial, Legendre, '
-        'sin, cos, Gauss; explicit dimension), index tuples, data size m (4..10), drift present/absent (non-reversible / '
+        'sin, cos, Gauss, and user-defined functions of two coordinates x_i x_j, sin(x_i + c x_j) with mixed second derivatives; explicit dimension), index tuples, data size m (4..10), drift present/absent (non-reversible / '
         'reversible), reweighting on/off, an absolute or relative threshold far below the singular values, the return option and '
         'num_eigvals. Oracles: (1) generator_on_product and generator_on_product_reversible against the generator applied to the '
         'product via the product rule, assembled by the harness from its own closed-form first and second derivatives of the '
-        'one-dimensional factors; (2) eigenvalues of amuset_hosvd against the dense projected generator '
+        'elementary factors (value, gradient, Hessian of each); (2) eigenvalues of amuset_hosvd against the dense projected generator '
         'V^T W^1/2 (L Psi)^T U S^-1 resp. -1/2 sum_l w_l S^-1 U^T grad Psi_l a_l grad Psi_l^T U S^-1 built from an explicit Psi '
         'and numpy.linalg.svd. Non-trivial: non-square diffusion, reweighting, >= 3 modes, a coordinate shared by two modes, or the '
         'reversible variant.')
@@ -35,11 +35,48 @@ ASSUMPTIONS = [
 ]
 
 FAMS = ['constant', 'identity', 'monomial', 'legendre', 'sin', 'cos', 'gauss']
+# user-defined elementary functions of two coordinates ("functions must be derived from data_driven.transform.Function"): their
+# Hessians have mixed entries, which none of the library's own one-coordinate classes has
+PAIR_FAMS = ['pair_product', 'sin_sum']
+
+
+class PairFunction(tdt.Function):
+    """x_i * x_j  resp.  sin(x_i + c x_j), written against the documented interface (__call__, partial, partial2)"""
+
+    def __init__(self, kind, i, j, c, dimension):
+        super(PairFunction, self).__init__(dimension)
+        self.kind, self.i, self.j, self.c = kind, i, j, c
+
+    def _w(self, direction):
+        # derivative of the inner argument x_i + c x_j with respect to x_direction
+        return (1.0 if direction == self.i else 0.0) + (self.c if direction == self.j else 0.0)
+
+    def __call__(self, t):
+        self.check_call_input(t)
+        if self.kind == 'pair_product':
+            return t[self.i] * t[self.j]
+        return np.sin(t[self.i] + self.c * t[self.j])
+
+    def partial(self, t, direction):
+        self.check_partial_input(t, direction)
+        if self.kind == 'pair_product':
+            return (t[self.j] if direction == self.i else 0.0) + (t[self.i] if direction == self.j else 0.0)
+        return self._w(direction) * np.cos(t[self.i] + self.c * t[self.j])
+
+    def partial2(self, t, direction1, direction2):
+        self.check_partial2_input(t, direction1, direction2)
+        if self.kind == 'pair_product':
+            return (1.0 if (direction1, direction2) == (self.i, self.j) else 0.0) + (1.0 if (direction1, direction2) == (self.j, self.i) else 0.0)
+        return -self._w(direction1) * self._w(direction2) * np.sin(t[self.i] + self.c * t[self.j])
 
 
 def fn_spec(draw, d):
-    fam = draw(st.sampled_from(FAMS))
+    fam = draw(st.sampled_from(FAMS + (PAIR_FAMS if d >= 2 else [])))
     s = {'family': fam, 'index': draw(st.integers(0, d - 1))}
+    if fam in PAIR_FAMS:
+        s['index2'] = draw(st.integers(0, d - 1).filter(lambda j: j != s['index']))
+        s['c'] = draw(st.sampled_from([1.0, 0.5, -2.0]))
+        return s
     if fam == 'monomial':
         s['exponent'] = draw(st.integers(1, 3))
         s['prefactor'] = draw(st.sampled_from([1.0, 1.0, 2.5, -0.5]))
@@ -55,6 +92,8 @@ def fn_spec(draw, d):
 
 def make_fn(s, d):
     fam, i = s['family'], s['index']
+    if fam in PAIR_FAMS:
+        return PairFunction(fam, i, s['index2'], s['c'], d)
     if fam == 'constant':
         if s.get('prefactor', 1.0) != 1.0:
             return tdt.Monomial(i, 0, prefactor=s['prefactor'], dimension=d)      # a scaled constant
@@ -99,24 +138,44 @@ def g012(s, t):
     return e, -(t - mu) / var * e, ((t - mu) ** 2 / var ** 2 - 1.0 / var) * e
 
 
-def product_derivatives(specs, x):
-    """F = prod_j f_j with f_j(x) = g_j(x[idx_j]):  -> F, grad F (d,), hess F (d,d)   (product rule)"""
+def vgh(s, x):
+    """value, gradient (d,) and Hessian (d,d) of one elementary function at the point x (independent closed forms)"""
     d = len(x)
-    vals = [g012(s, x[s['index']]) for s in specs]
+    g, H = np.zeros(d), np.zeros((d, d))
+    if s['family'] == 'pair_product':
+        i, j = s['index'], s['index2']
+        g[i], g[j] = x[j], x[i]
+        H[i, j] = H[j, i] = 1.0
+        return float(x[i] * x[j]), g, H
+    if s['family'] == 'sin_sum':
+        i, j, c_ = s['index'], s['index2'], s['c']
+        w = np.zeros(d)
+        w[i], w[j] = 1.0, c_
+        arg = x[i] + c_ * x[j]
+        return float(np.sin(arg)), np.cos(arg) * w, -np.sin(arg) * np.outer(w, w)
+    i = s['index']
+    v0, v1, v2 = g012(s, x[i])
+    g[i], H[i, i] = v1, v2
+    return float(v0), g, H
+
+
+def product_derivatives(specs, x):
+    """F = prod_j f_j:  -> F, grad F (d,), hess F (d,d)   (product rule for factors with arbitrary gradients and Hessians)"""
+    d = len(x)
+    vals = [vgh(s, x) for s in specs]
     p = len(specs)
     F = float(np.prod([v[0] for v in vals]))
     grad = np.zeros(d)
     hess = np.zeros((d, d))
     for j in range(p):
         cj = float(np.prod([vals[l][0] for l in range(p) if l != j]))
-        ij = specs[j]['index']
-        grad[ij] += cj * vals[j][1]
-        hess[ij, ij] += cj * vals[j][2]
+        grad += cj * vals[j][1]
+        hess += cj * vals[j][2]
         for v in range(p):
             if v == j:
                 continue
             cjv = float(np.prod([vals[l][0] for l in range(p) if l not in (j, v)]))
-            hess[ij, specs[v]['index']] += cjv * vals[j][1] * vals[v][1]
+            hess += cjv * np.outer(vals[j][1], vals[v][1])
     return F, grad, hess
 
 
@@ -142,7 +201,9 @@ def common_labels(c):
         lab.add('nonsquare_sigma')
     if len(c['phi']) >= 3:
         lab.add('modes>=3')
-    idx = [{s['index'] for s in f} for f in c['phi']]
+    idx = [{s['index'] for s in f} | {s['index2'] for s in f if 'index2' in s} for f in c['phi']]
+    if any(s['family'] in PAIR_FAMS for f in c['phi'] for s in f):
+        lab.add('two_coordinate_function')
     if any(idx[a] & idx[b] for a in range(len(idx)) for b in range(a + 1, len(idx))):
         lab.add('shared_coordinate')
     if c.get('num_form', 'float') != 'float':
@@ -267,7 +328,7 @@ def body_tgedmd(c):
     if cap is not None and cap < 1000:
         # a cap on the ranks: "the same singular-value cut" is then the sequential (mode by mode) truncated SVD of Psi, replayed
         # here densely from the per-mode value matrices (re-weighting enters with the last mode, as documented)
-        vm = [np.array([[g012(sp, X[sp['index'], l])[0] for l in range(m)] for sp in f]) for f in c['phi']]
+        vm = [np.array([[vgh(sp, X[:, l])[0] for l in range(m)] for sp in f]) for f in c['phi']]
         R = np.ones((1, m))
         frames = []
         for i, v in enumerate(vm):
@@ -366,8 +427,8 @@ def nt(labels):
 
 SUBCHECKS = [
     Sub('product_rule', product_case(), body_product, nt, quick=500, thorough=5000, shards_quick=4,
-        classes=['nonsquare_sigma', 'modes>=3', 'shared_coordinate']),
+        classes=['nonsquare_sigma', 'modes>=3', 'shared_coordinate', 'two_coordinate_function']),
     Sub('tgedmd', tgedmd_case(), body_tgedmd, nt, quick=120, thorough=1200, shards_quick=8, budget_quick=150,
         classes=['reversible', 'non_reversible', 'reweighting', 'nonsquare_sigma', 'rel_threshold', 'abs_threshold', 'ret_eigentensors',
-                 'ret_eigenvectors', 'ret_eigenfunctionevals', 'num_eigvals_cut', 'modes>=3', 'rescaled_psi']),
+                 'ret_eigenvectors', 'ret_eigenfunctionevals', 'num_eigvals_cut', 'modes>=3', 'rescaled_psi', 'two_coordinate_function']),
 ]
